@@ -29,7 +29,7 @@ CFG = {
     "search_both": ("IndexManager", "search_both_sections"),
     "update_search_pat": r"UpdateSection::search$",
     "sorted_search_pat": r"binary_search",
-    "status_eq_pat": r"UpdateStatus as std::cmp::PartialEq>::(eq|ne)$",
+    "status_eq_pat": r"UpdateStatus as core::cmp::PartialEq>::(eq|ne)$",
     "to_entry_pat": r"UpdateEntry::to_index_entry$",
     "section_search": ("UpdateSection", "search"),
     "resdb": "ResidencyDb",
@@ -205,10 +205,10 @@ def r3_precedence(ctx, cfg):
     sb = find_method(ctx, "C05.R3", *cfg["section_search"])
     if sb:
         ctx.saw(sb)
-        nexts = [c for c in sb.calls_matching(r"::iter::Iterator>::next$|::iterator::Iterator>::next$")]
+        nexts = [c for c in sb.calls_matching(r"\bIterator>?::next$")]
         ctx.floor("C05.R3", len(nexts), 2, "iterator steps in UpdateSection::search")
         for n, c in enumerate(nexts):
-            ctx.check("std::iter::Rev<" in c.full, "C05.R3", [sb.id, "rev#%d" % n],
+            ctx.check(re.search(r"\bRev<", c.full) is not None, "C05.R3", [sb.id, "rev#%d" % n],
                       "iterates in reverse (newest first)",
                       "UpdateSection::search iterates %s forward: an older entry for the key would win over a newer one" % c.full,
                       c.loc(), sample={"iterator": c.full})
@@ -348,7 +348,7 @@ def r4_dirty(ctx, cfg):
                       sample={"rename": r.loc(), "clear_blocks": clears})
 
 
-ADAPTERS = re.compile(r"std::result::Result::<T, E>::(map_err|map|inspect_err|inspect)$")
+ADAPTERS = re.compile(r"\bResult::<T, E>::(map_err|map|inspect_err|inspect)$")
 
 
 def enum_switches_through(body, local):
